@@ -7,7 +7,7 @@ From Coq Require Import PeanoNat Arith Lia.
 From AV Require Import Base.Bytes Base.Outcome Hash.HashModel Tree.Heap Tree.Ops Tree.Script Tree.Inv
   Tree.InvProofsBase Tree.InvProofsCore Tree.InvProofsTree Tree.InvProofsPrim Tree.InvProofsRemove Tree.InvProofsFiles
   Tree.InvProofsNav Tree.Load Tree.InvLoad Tree.InvProofsLoadBase Tree.InvProofsLoadWalk Tree.InvProofsLoadMerge
-  Tree.InvProofsLoad Tree.InvProofsLoadSim Tree.InvProofsLoadRoll.
+  Tree.InvProofsLoad Tree.InvProofsLoadSim Tree.InvProofsLoadRoll Tree.InvProofsLoadLive.
 From AV Require Xml.Parser Tree.LoadProofs Tree.LoadResidue.
 Open Scope string_scope.
 Open Scope list_scope.
@@ -106,6 +106,126 @@ Proof.
     + exfalso. destruct Hl as (n & Hn & _). assert (allocated wr p) as Ha by (eexists; eauto).
       apply Ral in Ha. apply (MI_alloc _ _ _ _ _ _ _ _ M) in Ha. lia.
     + apply killedb_kept. apply Hkeep. apply Hkeep in Hp. econstructor; eauto.
+Qed.
+
+(* ---------- load_parsed, every result ---------- *)
+Lemma load_parsed_core_full m filename root st w r w' :
+  Core w ->
+  (forall t w1 x, install PNone root w = Val (OK t, w1) ->
+     let w2 := mkWorld (w_nodes w1) (w_next w1)
+                       (w_files w1 ++ [mkFile m filename (Parser.p_version st) (Parser.p_standalone st)]) (w_models w1) in
+     nth_opt (w_models w2) (N.to_nat m) = Some x -> is_empty (m_files x) = false ->
+     merge_shared T LATEST name_definition_ref (fuel_of w2) (m_root x) (fold_right set_add [] (m_files x)) (it_id t)
+                  (N.of_nat (List.length (w_files w))) w2 = false) ->
+  load_parsed T LATEST name_definition_ref m filename root st w = Val (r, w') -> Core w'.
+Proof.
+  intros C Hshared H. pose proof H as H0. unfold load_parsed in H.
+  bstep H w0 wx E0; [|apply wget_inv in E0 as ([=] & _)]. apply wget_inv in E0 as ([= ->] & ->).
+  bstep H t w1 E1.
+  2:{ destruct (install_core _ _ _ _ _ C (or_introl eq_refl) E1) as (t' & [=] & _). }
+  destruct (install_core _ _ _ _ _ C (or_introl eq_refl) E1) as (t' & [= <-] & Eid & C1 & L1 & R1 & F1 & (nr & Hnr & Pnr) & Cl1).
+  pose proof (Hshared t w1) as Hsh.
+  set (base := w_next w) in *. set (re := it_id t) in *.
+  bstep H w1' wx E2; [|apply wget_inv in E2 as ([=] & _)]. apply wget_inv in E2 as ([= ->] & ->).
+  bstep H x0 wx E3; [|apply get_model_inv in E3 as (? & _ & [=] & _)]. apply get_model_inv in E3 as (x0' & Hx0 & [= ->] & ->).
+  bstep H ov wx E4; [|apply wl_inv in E4 as (? & _ & [=] & _)]. apply wl_inv in E4 as (ov' & _ & [= ->] & ->).
+  assert (Hroots_old : forall k r0, nth_error (roots w1) k = Some r0 -> r0 < base).
+  { intros k r0 Hk. rewrite R1 in Hk. destruct (c_roots _ C _ _ Hk) as (n & Hn & _). apply C. eexists; eauto. }
+  destruct ov'.
+  { (* overlap *)
+    bstep H u wk Ek; [|apply kill_spec in Ek as ([=] & _)].
+    apply wfail_inv in H as (-> & _).
+    apply (load_parsed_core T LATEST name_definition_ref m filename root st w (ER OverlappingDataError) w' C Hshared); [discriminate|exact H0]. }
+  bstep H u w2 E5; [|apply wput_inv in E5 as ([=] & _)]. apply wput_inv in E5 as (_ & ->).
+  set (w2 := mkWorld _ _ _ _) in *.
+  assert (S12 : same_tree w1 w2) by (apply st_models; reflexivity).
+  pose proof (Core_same_tree _ _ S12 C1) as C2.
+  bstep H x wx E6; [|apply get_model_inv in E6 as (? & _ & [=] & _)]. apply get_model_inv in E6 as (x' & Hx & [= ->] & ->).
+  bstep H rb w3 E7; [|apply wcatch_inv in E7 as (? & _ & [=])]. apply wcatch_inv in E7 as (rb' & E7 & [= ->]).
+  bstep H x3 wx E8; [|apply get_model_inv in E8 as (? & _ & [=] & _)]. apply get_model_inv in E8 as (x3' & Hx3 & [= ->] & ->).
+  bstep H w3' wx E9; [|apply wget_inv in E9 as ([=] & _)]. apply wget_inv in E9 as ([= ->] & ->).
+  bstep H keep wq E10; [|exfalso; exact (LoadProofs.errs_dfs_ids (fun _ => False) _ _ _ _ _ E10)].
+  pose proof (ro_dfs_ids _ _ _ _ _ E10) as ->.
+  bstep H u2 wk E11; [|apply kill_spec in E11 as ([=] & _)].
+  destruct rb' as [ub|eb].
+  { apply wret_inv in H as (-> & _).
+    apply (load_parsed_core T LATEST name_definition_ref m filename root st w (OK (N.of_nat (List.length (w_files w)))) w' C Hshared); [discriminate|exact H0]. }
+  (* the stage failed *)
+  apply wbind_inv in H as [(u3 & w5 & E12 & H) | (ee1 & E12 & _)]; [|discriminate E12].
+  apply wfail_inv in H as (_ & ->).
+  destruct (drop_file_keep T _ _ _ _ E12) as (Sdrop & _).
+  eapply Core_same_tree; [exact Sdrop|]. clear H0 E12 Sdrop.
+  (* where the error comes from *)
+  apply wbind_inv in E7 as [(ua & wa & Ea & Etail) | (ee2 & Ea & _)].
+  { exfalso. apply wbind_inv in Etail as [(ui & wi & Ei & Etail) | (ee3 & Ei & _)].
+    2:{ exact (LoadProofs.errs_fill_identifiables (fun _ => False) _ _ _ _ _ _ Ei). }
+    apply wbind_inv in Etail as [(ur & wr & Er & Etail) | (ee4 & Er & _)].
+    2:{ exact (LoadProofs.errs_fill_references (fun _ => False) _ _ _ _ _ _ Er). }
+    apply modify_model_inv in Etail as (? & _ & [=] & _). }
+  destruct (is_empty (m_files x')) eqn:Efirst.
+  { exfalso. apply wbind_inv in Ea as [(u5 & w6 & A1 & Ea) | (ee5 & A1 & _)]; [|apply modify_node_wset in A1 as (? & _ & [=] & _)].
+    apply wbind_inv in Ea as [(u6 & w7 & A2 & Ea) | (ee6 & A2 & _)]; [|apply modify_node_wset in A2 as (? & _ & [=] & _)].
+    apply modify_model_inv in Ea as (? & _ & [=] & _). }
+  apply wbind_inv in Ea as [(mr & wb & Em & Ea) | (ee7 & Em & _)]; [|apply wcatch_inv in Em as (? & _ & [=])].
+  apply wcatch_inv in Em as (mr' & Em & [= ->]).
+  destruct mr' as [um|em]; [apply wret_inv in Ea as ([=] & _)|].
+  apply wbind_inv in Ea as [(x1 & w6 & Ex1 & Ea) | (ee8 & Ex1 & _)]; [|apply get_model_inv in Ex1 as (? & _ & [=] & _)].
+  apply get_model_inv in Ex1 as (x1' & Hx1 & [= ->] & ->).
+  apply wbind_inv in Ea as [(urb & wr & Erb & Ea) | (ee9 & Erb & _)]; [|apply wtry_inv in Erb as (? & _ & [=])].
+  apply wfail_inv in Ea as (_ & ->).
+  (* the merge stopped somewhere: the invariant holds there *)
+  unfold merge_file_data in Em.
+  apply wbind_inv in Em as [(xm & wm0 & Em1 & Em) | (ee10 & Em1 & _)]; [|apply get_model_inv in Em1 as (? & _ & [=] & _)].
+  apply get_model_inv in Em1 as (xm' & Hxm & [= ->] & ->).
+  rewrite Hx in Hxm. injection Hxm as <-.
+  apply wbind_inv in Em as [(wg & wm0 & Em2 & Em) | (ee11 & Em2 & _)]; [|apply wget_inv in Em2 as ([=] & _)].
+  apply wget_inv in Em2 as ([= ->] & ->).
+  assert (Eme : exists rme, merge_element T LATEST name_definition_ref (fuel_of w2) (m_root x')
+                   (fold_right set_add [] (m_files x')) re (N.of_nat (List.length (w_files w))) w2 = Val (rme, wb)).
+  { apply wbind_inv in Em as [(ue & we & Eme & Em) | (ee12 & Eme & _)]; [|eauto]. exfalso.
+    apply wbind_inv in Em as [(x2 & wm0 & Em3 & Em) | (ee13 & Em3 & _)]; [|apply get_model_inv in Em3 as (? & _ & [=] & _)].
+    apply modify_node_wset in Em as (? & _ & [=] & _). }
+  destruct Eme as (rme & Eme).
+  set (rt := m_root x').
+  assert (Hr_root : nth_error (roots w2) (N.to_nat m) = Some rt) by (apply nth_opt_roots; exact Hx).
+  assert (Hr_old : rt < base) by (eapply Hroots_old; rewrite <- Hr_root; reflexivity).
+  assert (Hold_up : forall c p, c < base -> par w2 c p -> p < base).
+  { intros c p Hc Hp. apply (proj1 (st_par _ _ _ _ S12)) in Hp.
+    assert (Hp0 : par w c p). { destruct Hp as (n & Hn & Hpp). rewrite F1 in Hn by auto. exists n. auto. }
+    apply par_alloc in Hp0; auto. apply C. auto. }
+  assert (Hrb : parent_in w2 re = PNone).
+  { unfold parent_in. cbn [w_nodes w2]. rewrite Eid. rewrite Hnr. exact Pnr. }
+  assert (Hnew_up : forall c p, base <= c -> par w2 c p -> base <= p).
+  { intros c p Hc Hp. apply (proj1 (st_par _ _ _ _ S12)) in Hp. destruct (N.eq_dec c base) as [->|Hne].
+    - destruct Hp as (n & Hn & Hpp). rewrite Hnr in Hn. injection Hn as <-. congruence.
+    - apply (Cl1 c p); auto. lia. }
+  assert (M0 : MI base rt re w2 [] [] w2).
+  { constructor.
+    - apply Core_mask. exact C2.
+    - reflexivity.
+    - reflexivity.
+    - intros p d _ [].
+    - intros d [].
+    - reflexivity.
+    - reflexivity.
+    - intros y [].
+    - intros c p Hc Hp. left. eapply Hnew_up; eauto. }
+  assert (Hrr : Reach w2 rt rt).
+  { constructor. destruct (c_roots _ C2 _ _ Hr_root) as (n & Hn & _). eexists; eauto. }
+  destruct (merge_any T LATEST name_definition_ref base rt re w2 C2 Hr_old (ex_intro _ _ Hr_root) Hold_up Hrb
+                      (fuel_of w2) rt (fold_right set_add [] (m_files x')) re (N.of_nat (List.length (w_files w)))
+                      [] [] w2 rme wb M0 Hrr) as (D' & Imp' & Mb);
+    [intros []|intros []|rewrite Eid; apply N.le_refl|left; reflexivity|apply Hsh; auto|exact Eme|].
+  assert (Hroot1 : m_root x1' = rt).
+  { apply nth_opt_roots in Hx1. rewrite (mi_roots _ _ _ _ _ _ _ Mb), Hr_root in Hx1. congruence. }
+  rewrite Hroot1 in Erb.
+  assert (Hroot3 : m_root x3' = rt).
+  { apply nth_opt_roots in Hx3.
+    pose proof Erb as Erb'. apply wtry_inv in Erb' as (r1 & Erb' & _).
+    destruct (RemEff_facts _ _ _ (LoadResidue.rem_e_remove_from_file T _ rt _ _ _ Erb')) as (_ & Rr & _).
+    rewrite Rr, (mi_roots _ _ _ _ _ _ _ Mb), Hr_root in Hx3. congruence. }
+  rewrite Hroot3 in E10.
+  eapply (rollback_kill_core base rt re w2 D' Imp' wb _ _ wr _ keep wr _ wk Hr_old (ex_intro _ _ Hr_root) Mb); eauto.
 Qed.
 
 End Rej.
